@@ -169,6 +169,10 @@ func execRun(t *testing.T, p *Property, rc *RunCtx) {
 		f()
 	}
 	rc.PostBubble = nil
+	for _, tok := range rc.FPTokens {
+		rc.FP = (rc.FP ^ HashString(tok)) * 1099511628211
+	}
+	rc.FPTokens = nil
 }
 
 func newRC(p *Property, tier string, scen, sched *Tape, tracing bool) *RunCtx {
@@ -433,7 +437,7 @@ func TestWorker(t *testing.T) {
 			execRun(t, p, rc2)
 			heartbeat.Store(0)
 			wo.Rechecks++
-			if rc2.Hash != rc.Hash || len(rc2.Violations) != len(rc.Violations) {
+			if (rc2.Hash != rc.Hash || len(rc2.Violations) != len(rc.Violations)) && len(wo.Infra) < 5 {
 				wo.Infra = append(wo.Infra, fmt.Sprintf("NONDETERMINISM run %d seed %d: hash %016x vs %016x", i, seed, rc.Hash, rc2.Hash))
 			}
 		}
